@@ -1,4 +1,4 @@
-"""C03 -- extract preserves behaviour or is refused (VGC rules R03.1-R03.12)."""
+"""C03 -- extract preserves behaviour or is refused (VGC rules R03.1-R03.13)."""
 from __future__ import annotations
 
 import ast
@@ -384,6 +384,11 @@ def check(ctx, res) -> None:
                     "statement on the region's last line is not treated as conditional, so what it assigns counts as always written (returned but not "
                     "passed in: UnboundLocalError on the path where its body does not run)", function=m.qualname)
     res.floor("R03.12", "in-region interval tests of the collector", n12, 3)
+
+    # ---- R03.13 (=R15.12) `import a.b` binds `a`
+    from .common import import_binding_rule
+
+    import_binding_rule(ctx, res, "R03.13")
 
     # ---- R03.6 suite walker
     idx.need_class(SUITES)
